@@ -31,6 +31,8 @@ mod ffi {
                          register: &DiplomatStr16, switch: Option<Leaf>, delete: &mut [u16], operator: Box<str>) -> i32 { 0 }
         pub fn keywords3(auto: &str, export: &str, private: Option<&str>, volatile: Option<&[u8]>, explicit: Box<[i32]>) -> u8 { 0 }
         pub fn leaf(l: Leaf) -> Pair { Pair { a: 1, inner: l } }
+        // the usual way to dodge a Rust keyword: keyword + underscore, underscore + keyword (case conversion may strip the underscore)
+        pub fn keywords4(&self, in_: u8, for_: i8, static_: u16, enum_: u32, _new: u8, class_: &str, _default: Option<u8>, typeof_: &Beta, _delete: Leaf) -> u8 { in_ }
     }
     impl Beta {
         pub fn make_alpha(&self) -> Box<Alpha> { Box::new(Alpha(self.0)) }
@@ -60,6 +62,29 @@ mod ffi {
     impl Deep {
         pub fn up(&self, sp: &Spaced, peer: &SpacedPeer, s: SpacedStruct, ps: PeerStruct) -> Box<SpacedPeer> { Box::new(SpacedPeer(0)) }
     }
+    // two types with the same name in different namespaces, both used by a third (include guards, forward declarations)
+    #[diplomat::opaque]
+    #[diplomat::attr(supports = namespacing, namespace = "geo::metric")]
+    #[diplomat::attr(supports = namespacing, rename = "Unit")]
+    pub struct MetricUnit(pub u8);
+    #[diplomat::opaque]
+    #[diplomat::attr(supports = namespacing, namespace = "geo::imperial")]
+    #[diplomat::attr(supports = namespacing, rename = "Unit")]
+    pub struct ImperialUnit(pub u8);
+    #[diplomat::attr(supports = namespacing, namespace = "geo::metric")]
+    #[diplomat::attr(supports = namespacing, rename = "Span")]
+    pub struct MetricSpan { pub lo: u8, pub hi: u8 }
+    #[diplomat::attr(supports = namespacing, namespace = "geo::imperial")]
+    #[diplomat::attr(supports = namespacing, rename = "Span")]
+    pub struct ImperialSpan { pub lo: u16, pub inner: MetricSpan }
+    #[diplomat::opaque]
+    pub struct Converter(pub u8);
+    impl Converter {
+        pub fn conv(&self, m: &MetricUnit, i: &ImperialUnit, a: MetricSpan, b: ImperialSpan) -> ImperialSpan { b }
+        pub fn metric(&self) -> Box<MetricUnit> { Box::new(MetricUnit(1)) }
+        pub fn imperial(&self) -> Box<ImperialUnit> { Box::new(ImperialUnit(2)) }
+    }
+    impl MetricUnit { pub fn other(&self, i: &ImperialUnit) -> MetricSpan { MetricSpan { lo: 0, hi: i.0 } } }
     #[diplomat::opaque]
     #[diplomat::attr(*, rename = "Renamed{0}")]
     pub struct Plain(pub u8);
